@@ -16,7 +16,9 @@
 extern "C" const char *__asan_default_options() {
     return "exitcode=42:detect_leaks=0:abort_on_error=0:detect_stack_use_after_return=1:allocator_may_return_null=1:handle_abort=0";
 }
+#ifndef VERIF_NO_ALLOC_REPLACE   // (asan variant only; in the tsan variant this would override TSan's exit code)
 extern "C" const char *__ubsan_default_options() { return "halt_on_error=1:exitcode=46:print_stacktrace=0"; }
+#endif
 extern "C" const char *__tsan_default_options() {
     return "halt_on_error=1:exitcode=66:die_after_fork=0:report_signal_unsafe=0:second_deadlock_stack=0:history_size=2";
 }
